@@ -14,6 +14,7 @@
 #include <asl/Thread.h>
 #include <asl/Mutex.h>
 #include <atomic>
+#include <thread>
 #include <new>
 
 using namespace asl;
@@ -320,14 +321,179 @@ static void stress_counter(int nth, long nops, uint64_t seed, V initial, const c
 	VF_CHECK(final_ == (long long)initial + sum, name, ": final value ", final_, " != initial ", (long long)initial, " + sum of all operations ", sum, " (lost update)");
 }
 
-static const char* KINDS[] = {"Array", "Map", "HashMap", "Shared", "SmartObject", "AtomicCount", "Atomic<int>", "Atomic<Long>", "Atomic<double>"};
+static int ticket(AtomicCount* c, bool);
+static int ticket(Atomic<int>* c, bool post);
+
+// ---- the remaining read-modify-write forms of Atomic<T> and the values they return ---------------------------------
+
+// *= and /= on Atomic<double>: factors 2 and 0.5 are exact, so the final value is initial * 2^(sum of balances); every thread
+// keeps its own balance within +-20 and ends at 0, so the exact final value is the initial one
+static void stress_muldiv(int nth, long nops, uint64_t seed)
+{
+	Atomic<double>* c = new Atomic<double>(3.0);
+	std::vector<std::thread*> ts; // (std::thread: the hand-over flag of asl's lambda Thread is C13's subject and not TSan-clean)
+	for (int t = 0; t < nth; t++) {
+		uint64_t sd = seed * 40503ULL + t;
+		ts.push_back(new std::thread([=]() {
+			ref::SplitMix r(sd);
+			int bal = 0;
+			for (long k = 0; k < nops; k++) {
+				bool up = (r.next() & 1) != 0;
+				if (bal >= 20)
+					up = false;
+				if (bal <= -20)
+					up = true;
+				if (up) {
+					*c *= 2.0;
+					bal++;
+				}
+				else {
+					*c /= 2.0;
+					bal--;
+				}
+			}
+			for (; bal > 0; bal--)
+				*c /= 2.0;
+			for (; bal < 0; bal++)
+				*c *= 2.0;
+		}));
+	}
+	for (auto t : ts) {
+		t->join();
+		delete t;
+	}
+	double f = ~*c;
+	delete c;
+	VF_CHECK(f == 3.0, "Atomic<double>: after balanced sequences of *= 2 and /= 2 in ", nth, " threads the value is ", f, " (want the initial 3: an update was lost)");
+}
+
+// the values returned by ++x / x++ (and AtomicCount's ++): with increments only, the tickets drawn by all threads together are
+// exactly initial+1 .. initial+total, each once
+template <class C>
+static void stress_tickets(int nth, long nops, uint64_t seed, const char* name)
+{
+	if (nops > 200000)
+		nops = 200000;
+	C* c = new C(0);
+	std::vector<std::vector<int>> got(nth);
+	std::vector<std::thread*> ts; // (std::thread: the hand-over flag of asl's lambda Thread is C13's subject and not TSan-clean)
+	for (int t = 0; t < nth; t++) {
+		std::vector<int>* mine = &got[t];
+		uint64_t sd = seed * 69069ULL + t;
+		ts.push_back(new std::thread([=]() {
+			ref::SplitMix r(sd);
+			mine->reserve(nops);
+			for (long k = 0; k < nops; k++)
+				mine->push_back(ticket(c, (r.next() & 1) != 0));
+		}));
+	}
+	for (auto t : ts) {
+		t->join();
+		delete t;
+	}
+	long total = (long)nth * nops;
+	std::vector<char> seen(total + 2, 0);
+	for (auto& v : got)
+		for (int x : v) {
+			VF_CHECK(x >= 1 && x <= total, name, ": an increment returned ", x, ", outside 1..", total);
+			VF_CHECK(!seen[x], name, ": the value ", x, " was returned by two increments (", nth, " threads, increments only)");
+			seen[x] = 1;
+		}
+	int f = (int)*c;
+	delete c;
+	VF_CHECK(f == total, name, ": final value ", f, " after ", total, " increments");
+}
+static int ticket(AtomicCount* c, bool) { return ++*c; }
+static int ticket(Atomic<int>* c, bool post) { return post ? (*c)++ + 1 : ++*c; }
+
+// Atomic<Array<int>> << x : appends under the lock (the array grows and reallocates while other threads append)
+static void stress_append(int nth, long nops, uint64_t seed)
+{
+	if (nops > 50000)
+		nops = 50000;
+	Atomic<Array<int>>* a = new Atomic<Array<int>>();
+	std::vector<std::thread*> ts; // (std::thread: the hand-over flag of asl's lambda Thread is C13's subject and not TSan-clean)
+	for (int t = 0; t < nth; t++)
+		ts.push_back(new std::thread([=]() {
+			for (long k = 0; k < nops; k++) {
+				if (k % 3 == 0)
+					(*a)->insert(-1, t * 1000000 + (int)k); // operator-> : a Locked<T> temporary holds the mutex for the call
+				else
+					*a << (t * 1000000 + (int)k);
+			}
+		}));
+	for (auto t : ts) {
+		t->join();
+		delete t;
+	}
+	(void)seed;
+	Array<int> r = ~*a;
+	delete a;
+	VF_CHECK(r.length() == nth * nops, "Atomic<Array<int>>: ", nth, " threads appended ", nops, " elements each, the array has ", r.length());
+	std::vector<long> next(nth, 0);
+	for (int i = 0; i < r.length(); i++) {
+		int t = r[i] / 1000000, k = r[i] % 1000000;
+		VF_CHECK(t >= 0 && t < nth && k == next[t], "Atomic<Array<int>>: element ", i, " is ", r[i], ", thread ", t, "'s next element should be number ", t < nth && t >= 0 ? next[t] : -1);
+		next[t]++;
+	}
+}
+
+// Atomic<struct>: member updates through operator-> and locked()
+struct PairLL {
+	long long a, b;
+	void bump(int d)
+	{
+		a += d;
+		b -= d;
+	}
+};
+static void stress_struct(int nth, long nops, uint64_t seed)
+{
+	PairLL z = {0, 0};
+	Atomic<PairLL>* p = new Atomic<PairLL>(z);
+	std::vector<long long> sums(nth, 0);
+	std::vector<std::thread*> ts; // (std::thread: the hand-over flag of asl's lambda Thread is C13's subject and not TSan-clean)
+	for (int t = 0; t < nth; t++) {
+		long long* mine = &sums[t];
+		uint64_t sd = seed * 31337ULL + t;
+		ts.push_back(new std::thread([=]() {
+			ref::SplitMix r(sd);
+			long long s = 0;
+			for (long k = 0; k < nops; k++) {
+				int d = (int)(r.next() % 7) + 1;
+				if (k % 2)
+					(*p)->bump(d);
+				else {
+					Locked<PairLL> l = p->locked();
+					l->a += d;
+					(*l).b -= d;
+				}
+				s += d;
+			}
+			*mine = s;
+		}));
+	}
+	long long sum = 0;
+	for (int t = 0; t < nth; t++) {
+		ts[t]->join();
+		delete ts[t];
+		sum += sums[t];
+	}
+	PairLL f = ~*p;
+	delete p;
+	VF_CHECK(f.a == sum && f.b == -sum, "Atomic<struct>: members updated through operator-> / locked() by ", nth, " threads: a=", f.a, " b=", f.b, ", the sum of all updates is ", sum);
+}
+
+static const int NKINDS = 14;
+static const char* KINDS[] = {"Array", "Map", "HashMap", "Shared", "SmartObject", "AtomicCount", "Atomic<int>", "Atomic<Long>", "Atomic<double>",
+                              "Atomic<double>.muldiv", "AtomicCount.tickets", "Atomic<int>.tickets", "Atomic<Array>.append", "Atomic<struct>.members"};
 
 void vf_run_case(const std::string& part, const vf::Case& c)
 {
 	for (auto& o : c.ops) {
 		if (o.name != "stress")
 			continue;
-		int kind = (int)((o.i(0) % 9 + 9) % 9);
+		int kind = (int)((o.i(0) % NKINDS + NKINDS) % NKINDS);
 		int nth = (int)(o.i(1) < 2 ? 2 : o.i(1) > 32 ? 32 : o.i(1));
 		long nops = (long)(o.i(2) < 1 ? 1 : o.i(2) > 20000000 ? 20000000 : o.i(2));
 		uint64_t seed = (uint64_t)o.i(3);
@@ -359,6 +525,21 @@ void vf_run_case(const std::string& part, const vf::Case& c)
 		case 8:
 			stress_counter<Atomic<double>, double>(nth, nops, seed, 7, KINDS[kind]);
 			break;
+		case 9:
+			stress_muldiv(nth, nops, seed);
+			break;
+		case 10:
+			stress_tickets<AtomicCount>(nth, nops, seed, KINDS[kind]);
+			break;
+		case 11:
+			stress_tickets<Atomic<int>>(nth, nops, seed, KINDS[kind]);
+			break;
+		case 12:
+			stress_append(nth, nops, seed);
+			break;
+		case 13:
+			stress_struct(nth, nops, seed);
+			break;
 		}
 		vf::stats().cls(vf::str("stress.", KINDS[kind]));
 		vf::stats().cls("stress.thread_ops", (uint64_t)nth * nops);
@@ -373,7 +554,7 @@ void vf_search(const vf::Args& a)
 	long per_thread = a.n(40000, 600000);
 	int reps = a.quick() ? 3 : 6;
 	for (int rep = 0; rep < reps; rep++)
-		for (int kind = 0; kind < 9; kind++) {
+		for (int kind = 0; kind < NKINDS; kind++) {
 			int nth = rep % 2 ? 16 : 4 + (int)rng.below(13);
 			long nops = kind >= 5 ? per_thread * 4 : per_thread;
 			vf::Case c;
